@@ -116,34 +116,30 @@ def run(repo, rep, tier):
     # one request per connection: perform_test
     pt = repo.func('hostkeytest', 'HostKeyTest.perform_test')
     rep.saw(pt)
-    c = CFG(pt)
 
     def is_call(st, pred):
         if isinstance(st, (ast.With, ast.Try, ast.ExceptHandler, ast.FunctionDef, ast.ClassDef)):
             return False
         tgt = st.test if isinstance(st, (ast.If, ast.While)) else (st.iter if isinstance(st, ast.For) else st)
         return any(isinstance(n, ast.Call) and pred(n) for n in walk_no_nested(tgt))
-    sends = c.stmts_matching(lambda st: is_call(st, lambda n: unparse(n.func) == 'kex_group.send_init'))
-    closes = c.stmts_matching(lambda st: is_call(st, lambda n: unparse(n.func) == 's.close'))
-    # the probe loop: the for statement enclosing the connect site (whatever it iterates -- rule `bound` decides what it may iterate)
-    loops = []
-    for n in walk_no_nested(pt):
-        if isinstance(n, ast.Call) and unparse(n.func) == 's.connect':
-            q = n
-            while q is not None and q is not pt:
-                if isinstance(q, ast.For):
-                    loops.append(q)
-                q = getattr(q, '_parent', None)
-    loops = list(dict.fromkeys(loops))
-    rep.floor('senders', 'send sites in perform_test', len(sends), 1)
-    rep.floor('senders', 'host-key type loop', len(loops), 1)
-    heads = c.nodes_of(loops[0], kinds=('test',))
-    starts = set()
-    for s in sends:
-        starts |= {x for x in s.succ if x.kind not in ('raise',)}
-    p = c.find_path(list(starts), heads + [c.exit], avoid=closes)
-    rep.check('senders', 'host-key probe: after a KEX request the connection is closed before the next type is probed or the probe returns', p is None, sends[0].stmt,
-              'a second key-exchange request can be sent on the same connection (no close between sends)', witness=describe_path(p) if p else None)
+    # the host-key probe interpreted along its no-exception path (props/_hostkey_rating.probe): for a server offering k probe-able key types the socket sees
+    # exactly k times connect, one key-exchange init, close -- in that order; repeated or unknown names in the peer's list add nothing
+    from props import _hostkey_rating as _HK
+    hk_consts = _HK.class_consts(repo, ce, 'hostkeytest', 'HostKeyTest')
+    for offered, n_expected, what in ((['ssh-ed25519'], 1, 'one key type'), (['ssh-ed25519', 'ssh-rsa', 'rsa-sha2-512', 'ecdsa-sha2-nistp256'], 3, 'four names, two of one family'),
+                                      (['ssh-ed25519', 'ssh-ed25519', 'ssh-ed25519', 'made-up-type', 'made-up-type-2'], 1, 'a repetitive list with unknown names'), ([], 0, 'no host keys')):
+        meas = [(t, False, 3072 if 'rsa' in t else 256, '', 0) for t in ('ssh-rsa', 'rsa-sha2-512', 'ssh-ed25519', 'ecdsa-sha2-nistp256')]
+        ev_ = _HK.probe(repo, hk_consts, meas, offered=offered)
+        rep.evals()
+        log = [x for x in ev_['log']]
+        lead = 0
+        while lead < len(log) and log[lead] == 'close':
+            lead += 1           # closing the inherited connection first is fine
+        rest = log[lead:]
+        ok = rest == ['connect', 'init', 'close'] * n_expected
+        rep.check('senders', 'host-key probe (%s): every connection carries exactly one key-exchange request and is closed before the next' % what, ok, pt,
+                  'host-key probe against a server offering %s performs %s (expected %d x connect, init, close): a second key-exchange request on one connection, a connection left open, or connections driven by the peer\'s list' % (offered, rest, n_expected),
+                  stmt='host-key probe socket protocol: %s' % what)
     si = repo.func('gextest', 'GEXTest._send_init')
     rep.saw(si)
     c2 = CFG(si)
@@ -167,38 +163,47 @@ def run(repo, rep, tier):
     calls = [n for n in walk_no_nested(run_hk) if isinstance(n, ast.Call) and call_name(n) == 'HostKeyTest.perform_test']
     ok = len(calls) == 1 and unparse(bind_args(calls[0], pt).get('host_key_types')) == 'HostKeyTest.HOST_KEY_TYPES' and not [k for t, pp, k in path_condition(calls[0]) if k in ('for', 'while')]
     rep.check('bound', 'the host-key probe iterates the literal HOST_KEY_TYPES table, once', ok, calls[0] if calls else run_hk, 'host-key probe iterates %s' % (unparse(bind_args(calls[0], pt).get('host_key_types')) if calls else '?'))
-    conns = [n for n in walk_no_nested(pt) if isinstance(n, ast.Call) and unparse(n.func) == 's.connect']
-    ok = len(conns) == 1
-    if ok:
-        pcs = path_condition(conns[0])
-        fors = [unparse(t) for t, pp, k in pcs if k == 'for']
-        ifs = [(unparse(t), pp) for t, pp, k in pcs if k == 'if']
-        ok = len(fors) == 1 and ('not s.is_connected()', True) in ifs
-        # what the loop iterates decides the number of connections: the literal table (the parameter the only caller binds to it), possibly filtered -- never a list the peer supplied
+    # The loops of perform_test from whose body a connection can be opened (directly, or through a helper that reaches SSH_Socket.connect) must iterate the
+    # literal table (the parameter the only caller binds to it), possibly filtered -- never a list the peer supplied: on a failing probe the type is not
+    # marked as handled, so a repetitive peer list would open one connection per repetition.
+    sock_connect = repo.func('ssh_socket', 'SSH_Socket.connect')
 
-        def bound_source(e):
-            if isinstance(e, ast.Name) and e.id == 'host_key_types':
-                return 'table'
-            if unparse(e) == 'HostKeyTest.HOST_KEY_TYPES':
-                return 'table'
-            if isinstance(e, ast.Call) and isinstance(e.func, ast.Name) and e.func.id in ('list', 'sorted', 'tuple', 'set', 'reversed') and len(e.args) == 1:
-                return bound_source(e.args[0])
-            if isinstance(e, ast.Call) and isinstance(e.func, ast.Attribute) and e.func.attr in ('keys', 'items') and not e.args:
-                return bound_source(e.func.value)
-            if isinstance(e, (ast.ListComp, ast.GeneratorExp, ast.SetComp)) and len(e.generators) == 1:
-                return bound_source(e.generators[0].iter)
-            if any(isinstance(x, ast.Name) and x.id in ('server_kex', 'kex', 'payload') for x in ast.walk(e)):
-                return 'peer'
-            return 'unknown'
-        for_nodes = [t for t, pp, k in pcs if k == 'for']
-        if for_nodes:
-            src = bound_source(for_nodes[0])
-            if src == 'unknown':
-                raise AnalysisError('host-key probe loop iterates %s: cannot tell whether it is bounded by the literal table' % unparse(for_nodes[0]))
-            rep.check('bound', 'host-key probe loop is bounded by the literal table of key types, not by a peer-supplied list', src == 'table', conns[0],
-                      'the host-key probe opens one connection per element of %s: the number of connections is chosen by the peer (a long or repetitive host-key list makes the audit open as many connections), not bounded by the %d-entry table' % (unparse(for_nodes[0]), len(hkt)),
-                      stmt='host-key probe loop source')
-    rep.check('bound', 'host-key probe: one connect per probed type, only when not connected, inside the probe loop', ok, conns[0] if conns else pt, 'connect site in perform_test: loops %s' % ([unparse(t) for t, pp, k in path_condition(conns[0]) if k == 'for'] if conns else '?'))
+    def opens_connection(loop):
+        for st in loop.body:
+            for n in ast.walk(st):
+                if isinstance(n, ast.Call):
+                    if isinstance(n.func, ast.Attribute) and n.func.attr == 'connect' and unparse(n.func.value) in ('s', 'sock', 'self'):
+                        return True
+                    for e in cg.edges.get(pt, []):
+                        if e[1] is n and (e[0] is sock_connect or sock_connect in cg.reachable([e[0]])):
+                            return True
+        return False
+
+    def bound_source(e):
+        if isinstance(e, ast.Name) and e.id == 'host_key_types':
+            return 'table'
+        if unparse(e) == 'HostKeyTest.HOST_KEY_TYPES':
+            return 'table'
+        if isinstance(e, ast.Call) and isinstance(e.func, ast.Name) and e.func.id in ('list', 'sorted', 'tuple', 'set', 'reversed') and len(e.args) == 1:
+            return bound_source(e.args[0])
+        if isinstance(e, ast.Call) and isinstance(e.func, ast.Attribute) and e.func.attr in ('keys', 'items') and not e.args:
+            return bound_source(e.func.value)
+        if isinstance(e, (ast.ListComp, ast.GeneratorExp, ast.SetComp)) and len(e.generators) == 1:
+            return bound_source(e.generators[0].iter)
+        if any(isinstance(x, ast.Name) and x.id in ('server_kex', 'kex', 'payload') for x in ast.walk(e)):
+            return 'peer'
+        return 'unknown'
+    probe_loops = [n for n in walk_no_nested(pt) if isinstance(n, ast.For) and opens_connection(n)]
+    rep.floor('bound', 'loops of perform_test that open connections', len(probe_loops), 1)
+    for lp in probe_loops:
+        src = bound_source(lp.iter)
+        if src == 'unknown':
+            raise AnalysisError('host-key probe loop iterates %s: cannot tell whether it is bounded by the literal table' % unparse(lp.iter))
+        rep.check('bound', 'host-key probe loop is bounded by the literal table of key types, not by a peer-supplied list', src == 'table', lp,
+                  'the host-key probe opens one connection per element of %s: the number of connections is chosen by the peer (a long or repetitive host-key list makes the audit open as many connections), not bounded by the %d-entry table' % (unparse(lp.iter), len(hkt)),
+                  stmt='host-key probe loop source')
+    whiles = [n for n in walk_no_nested(pt) if isinstance(n, ast.While) and opens_connection(n)]
+    rep.check('bound', 'no while loop opens probe connections', not whiles, whiles[0] if whiles else pt, 'connections opened inside a while loop in perform_test')
     hk_bound = len(hkt)
     gr = repo.func('gextest', 'GEXTest.run')
     rep.saw(gr)
@@ -234,8 +239,9 @@ def run(repo, rep, tier):
     retry = [n for n in walk_no_nested(au) if isinstance(n, ast.Call) and call_name(n) == 'audit']
     ok = len(ac) == 1 and not [k for t, pp, k in path_condition(ac[0]) if k in ('for', 'while')] and len(retry) == 1 and unparse(retry[0].args[2]) == '1'
     if ok:
-        conds = [(unparse(t), pp) for t, pp, k in path_condition(retry[0]) if k == 'if']
-        ok = ('sshv == 2 and aconf.ssh1', True) in conds
+        from sa.logic import implied_atoms as _ia
+        atoms = {(unparse(t), pp) for t, pp in _ia(path_condition(retry[0]))}
+        ok = ('sshv == 2', True) in atoms or ('sshv != 2', False) in atoms or ('sshv == 1', False) in atoms
     rep.check('bound', 'audit opens one connection, plus one SSH-1 retry that cannot recurse further', ok, ac[0] if ac else au, 'initial connection / retry structure changed')
     total = 1 + 1 + hk_bound + gex_bound
     rep.extra['static_connection_ceiling'] = {'initial': 1, 'ssh1_retry': 1, 'host_key_probe': hk_bound, 'gex_probe': gex_bound, 'total': total, 'rate_test': 'see rule ratetest'}
